@@ -36,7 +36,8 @@ fn length_case(rng: &mut Rng, idx: u64, rec: &mut Rec) {
     rec.cov(&format!("length/status-{}{}", if redirect { "3xx" } else { "other" }, if te10 { "/http10-with-ignored-chunked" } else { "" }));
     // what stands next to the length field must not matter: fields with an empty value, long ones,
     // the field name in other case, optional whitespace around the value, fields after it
-    let before = *rng.pick(&["", "", "X-Trace:\r\n", "X-Trace: \r\nX-Other:\t\r\n", "Content-Type: text/plain\r\n", "Set-Cookie: a=b; Path=/\r\nSet-Cookie: c=d\r\n"]);
+    // (among the neighbours: codings that are not chunked, written with empty list elements)
+    let before = *rng.pick(&["", "", "X-Trace:\r\n", "X-Trace: \r\nX-Other:\t\r\n", "Content-Type: text/plain\r\n", "Set-Cookie: a=b; Path=/\r\nSet-Cookie: c=d\r\n", "Transfer-Encoding: identity,\r\n", "Transfer-Encoding: gzip, ,deflate\r\n", "Transfer-Encoding:\r\n"]);
     let after = *rng.pick(&["", "", "X-After:\r\n", "Vary: *\r\n"]);
     let cl_name = *rng.pick(&["Content-Length", "Content-Length", "content-length", "CONTENT-LENGTH"]);
     let (ows1, ows2) = *rng.pick(&[(" ", ""), (" ", ""), ("", ""), ("  ", " "), ("\t", "\t ")]);
@@ -198,11 +199,20 @@ fn close_case(rng: &mut Rng, idx: u64, rec: &mut Rec) {
     };
     let stream = payload(total, (idx % 200) as u8);
     let http10 = rng.chance(1, 2);
-    let status = *rng.pick(&[200u16, 404, 500, 201]);
-    let head = format!("HTTP/1.{} {} X\r\nServer: s\r\n\r\n", if http10 { 0 } else { 1 }, status);
+    let mut status = *rng.pick(&[200u16, 404, 500, 201]);
+    let mut head = format!("HTTP/1.{} {} X\r\nServer: s\r\n\r\n", if http10 { 0 } else { 1 }, status);
+    if rng.chance(1, 6) {
+        // a redirect that announces a body with a coding that is not (or, on HTTP/1.0, cannot be) applied:
+        // that body ends when the connection does
+        status = *rng.pick(&[301u16, 302, 307]);
+        let te = if http10 { *rng.pick(&["chunked", "gzip"]) } else { *rng.pick(&["gzip", "identity", ""]) };
+        head = format!("HTTP/1.{} {} X\r\nLocation: /n\r\nTransfer-Encoding: {}\r\n\r\n", if http10 { 0 } else { 1 }, status, te);
+        rec.cov("close/redirect-with-unapplied-coding");
+    }
     // one case in five: the body arrives on a flow that already has every other reason to close
     // (HTTP/1.0 request, Connection: close on both sides, Expect refused by this very response)
     let loaded = rng.chance(1, 5);
+    let loaded = loaded && !(300..400).contains(&status);
     let head = if loaded { format!("HTTP/1.{} {} X\r\nServer: s\r\nConnection: close\r\n\r\n", if http10 { 0 } else { 1 }, status) } else { head };
     let mut f = if loaded {
         use ureq_proto::client::flow::{Await100Result, SendRequestResult};
@@ -235,7 +245,7 @@ fn close_case(rng: &mut Rng, idx: u64, rec: &mut Rec) {
     }
     let mut b = match f.proceed() {
         Some(RecvResponseResult::RecvBody(b)) => b,
-        _ => return rec.fail("C08/no-body-state", "response without framing did not lead to the body state".into()),
+        _ => return rec.fail("C08/no-body-state", format!("a response whose body ends with the connection did not lead to the body state: {:?}", crate::json::esc_short(head.as_bytes(), 90))),
     };
     if mode_of(b.body_mode()) != Mode::Close {
         return rec.fail("C08/mode", format!("body_mode() = {:?} for a response without framing headers", b.body_mode()));
@@ -291,7 +301,17 @@ fn close_case(rng: &mut Rng, idx: u64, rec: &mut Rec) {
             }
             rec.cov(if stop_at < total { "close/proceed-early" } else { "close/proceed-at-end" });
         }
-        _ => rec.fail("C08/proceed", "close-delimited body did not proceed to cleanup".into()),
+        Some(RecvBodyResult::Redirect(r)) if (300..400).contains(&status) => {
+            rec.call();
+            if !r.must_close_connection() || r.close_reason().is_none() {
+                return rec.fail(
+                    "C08/close-delimited-offered-for-reuse",
+                    format!("close-delimited body of a redirect: must_close_connection() = {} reason = {:?}", r.must_close_connection(), r.close_reason()),
+                );
+            }
+            rec.cov("close/proceed-to-redirect");
+        }
+        _ => rec.fail("C08/proceed", "close-delimited body did not proceed to the state its status prescribes".into()),
     }
 }
 
@@ -353,7 +373,7 @@ impl Property for P {
     fn floors(&self, _tier: Tier) -> Vec<(String, u64)> {
         [
             "length/window<left/*", "length/window=left/*", "length/window>left/out>=window", "length/window>left/out<window", "length/window>left/out=0", "length/read-after-complete", "close/out=0", "close/out<window", "close/out>=window",
-            "close/proceed-early", "close/proceed-at-end", "close/with-four-other-close-reasons", "length/status-3xx", "length/behind-a-late-100", "length/status-other/http10-with-ignored-chunked",
+            "close/proceed-early", "close/proceed-at-end", "close/with-four-other-close-reasons", "length/status-3xx", "length/behind-a-late-100", "length/status-other/http10-with-ignored-chunked", "close/redirect-with-unapplied-coding", "close/proceed-to-redirect",
         ]
         .iter()
         .map(|k| (k.to_string(), 50))
